@@ -192,7 +192,7 @@ func rulesC12(w *World, r *Report) {
 			if p.verb == "%s" {
 				r.Check(strings.HasPrefix(val, "net/url.QueryEscape("), "C12.R2", d.name+":escape:"+p.key, w.instrPos(sp), "query value is QueryEscape'd", "the value of query key "+p.key+" is not url.QueryEscape'd ("+val+"): names containing + & # or spaces reach the server changed")
 			}
-			if val == "net/url.QueryEscape((whispertool.Timestamp).String(p"+pm[1]+"))" {
+			if val == "net/url.QueryEscape(whispertool.Timestamp.String(p"+pm[1]+"))" {
 				r.OK("C12.R3", d.name+":client-time:"+p.key, w.instrPos(sp), "timestamp sent as Timestamp.String()")
 			}
 		}
@@ -428,7 +428,7 @@ func codecCallSeq(w *World, f *ssa.Function, method string) []string {
 				for _, in := range hdr.Instrs {
 					if bo, ok := in.(*ssa.BinOp); ok && isCmp(bo.Op) {
 						e := newExprCtx(w).expr(bo)
-						if strings.Contains(e, "len((*whispertool.Header).ArchiveInfoList(") {
+						if strings.Contains(e, "len(") && strings.Contains(e, ".archiveInfoList)") {
 							okBound = true
 						}
 					}
